@@ -54,6 +54,14 @@ CLAIMS = {
             "the DWARF contents themselves (forms, DWARF 4 vs 5 attribute encodings, column information) are decoded by "
             "elfutils and interpreted at run time",
             "§8.6 (added after the design: C43 was first declared not applicable)"),
+    "C35": ("member-initialisation rule over every constructor reachable from a main (constructor initialisers from the "
+            "AST, call graph liveness) and a CFG rule over every value-returning function",
+            "two kinds of undefined behaviour that do not depend on the input: no reachable constructor leaves a scalar data "
+            "member uninitialised (R-MEMBERINIT, ~400 pairs), no value-returning function has a reachable path that flows off "
+            "its end (R-RETFALL, ~3000 functions)",
+            "invalid memory accesses, use-after-free and all value-dependent undefined behaviour: sanitizers on generated "
+            "programs are the dynamic technique the property describes and are not replaced",
+            "§8.6 (added after the design: C35 was first declared not applicable)"),
     "C14": ("type-directed loop classification (address-dependent containers from canonical template arguments) and "
             "pointer-comparison lint over every comparator handed to std::sort and the ordering helpers it delegates to",
             "loops over pointer-keyed / interned_string-keyed unordered containers and pointer-ordered sets never "
@@ -391,7 +399,6 @@ CLAIMS = {
 }
 
 NOT_APPLICABLE = {
-    "C35": "generic memory safety / UB of 120 kLOC has no repo-specific structural rule; sanitizers are a dynamic technique",
 }
 
 PENDING = "static rule designed (see DESIGN.md §3/§4) but its checker is not built yet, so the property is not claimed"
